@@ -18,7 +18,7 @@ func init() {
 	}})
 }
 
-func genIndexed(prop string, seed uint64, run int, stream uint64, uniquePct int) *Plan {
+func genIndexed(prop string, seed uint64, run int, stream uint64, uniquePct int, tier string) *Plan {
 	r := newRNG(seed, stream)
 	g := newGen(r)
 	g.colls = []string{"c0"}
@@ -50,7 +50,7 @@ func genIndexed(prop string, seed uint64, run int, stream uint64, uniquePct int)
 		tp.Ops = append(tp.Ops, g.seedOps(100)...)
 		tp.Ops = append(tp.Ops, ixs...)
 	}
-	n := 2 + r.IntN(10)
+	n := deepen(tier, seed, 2+r.IntN(10))
 	for i := 0; i < n; i++ {
 		var op Op
 		switch r.IntN(12) {
@@ -82,5 +82,9 @@ func genIndexed(prop string, seed uint64, run int, stream uint64, uniquePct int)
 	return p
 }
 
-func genC07(seed uint64, run int, tier string) *Plan { return genIndexed("C07", seed, run, 7, 85) }
-func genC15(seed uint64, run int, tier string) *Plan { return genIndexed("C15", seed, run, 15, 40) }
+func genC07(seed uint64, run int, tier string) *Plan {
+	return genIndexed("C07", seed, run, 7, 85, tier)
+}
+func genC15(seed uint64, run int, tier string) *Plan {
+	return genIndexed("C15", seed, run, 15, 40, tier)
+}
